@@ -15,15 +15,17 @@ BASE_RUSTFLAGS = '--emit=llvm-ir,link -C codegen-units=1 -C debuginfo=0 --cfg cr
 
 # name -> (cargo feature list, extra rustflags)
 CONFIGS = {
-    'release-std': (['std'], ''),
-    'release-nosimd': (['std', 'no_simd'], ''),
-    'devchk-std': (['std'], '-C overflow-checks=on -C debug-assertions=on'),
-    'devchk-nosimd': (['std', 'no_simd'], '-C overflow-checks=on -C debug-assertions=on'),
-    'release-nostd-sse2': ([], ''),
-    'release-nostd-ssse3': ([], '-C target-feature=+ssse3'),
-    'release-nostd-sse41': ([], '-C target-feature=+ssse3,+sse4.1'),
-    'release-nostd-avx': ([], '-C target-feature=+ssse3,+sse4.1,+avx'),
-    'release-nostd-avx2': ([], '-C target-feature=+ssse3,+sse4.1,+avx,+avx2'),
+    'release-std': (['std', 'hashes', 'x86hashes'], ''),
+    'release-nosimd': (['std', 'no_simd', 'hashes', 'x86hashes'], ''),
+    'devchk-std': (['std', 'hashes', 'x86hashes'], '-C overflow-checks=on -C debug-assertions=on'),
+    'devchk-nosimd': (['std', 'no_simd', 'hashes', 'x86hashes'], '-C overflow-checks=on -C debug-assertions=on'),
+    'release-nounroll': (['std', 'hashes', 'no_unroll'], ''),
+    # compile-time dispatch (ppv-lite86 without "std"); jh-x86_64 forces ppv-lite86/std and is therefore not part of these
+    'release-nostd-sse2': (['hashes'], ''),
+    'release-nostd-ssse3': (['hashes'], '-C target-feature=+ssse3'),
+    'release-nostd-sse41': (['hashes'], '-C target-feature=+ssse3,+sse4.1'),
+    'release-nostd-avx': (['hashes'], '-C target-feature=+ssse3,+sse4.1,+avx'),
+    'release-nostd-avx2': (['hashes'], '-C target-feature=+ssse3,+sse4.1,+avx,+avx2'),
 }
 
 
